@@ -488,7 +488,7 @@ def _check_invariance(case):
     need = n + 1 - 0.25
     if not p >= need:
         res.fail(
-            f"{ID}/rg-invariance/{scheme}/order={n}",
+            f"{ID}/rg-invariance/{scheme}/order={n}/p~{int(round(p))}",
             f"{scheme} order {n} {case['dir']} across quark {q}: a_s(mu_to) for matching ratios {case['k1']:.3f} vs "
             f"{case['k2']:.3f} (masses fixed) differs like lambda^{p:.2f} (lambda {l1}->{l2}: {d1:.3e}->{d2:.3e}); "
             f"matching-scale independence needs >= {need}",
